@@ -3,6 +3,9 @@
 From PV Require Import Lib.Common Model.C04_Gmod.
 Local Open Scope Z_scope.
 
+Lemma mclass_eq_dec (a b : mclass) : {a = b} + {a <> b}.
+Proof. decide equality. Qed.
+
 (** per-entry flags, named (the tables of Model/C04_Gmod.v are maps of exactly these) *)
 Definition avail1 (x : Z) : bool := 0 <? x.
 Definition fixed1 (x N : Z) : bool := x =? N.
@@ -137,20 +140,31 @@ Proof. intros W Hj. unfold well_shaped in W. rewrite Forall_forall in W. apply W
 Lemma colsumsZ_len p rows : Forall (fun r => length r = p) rows -> length (colsumsZ p rows) = p.
 Proof. induction 1 as [|r rows Hr _ IH]; cbn [colsumsZ fold_right]; [apply repeat_length|]. fold (colsumsZ p rows). rewrite map2_length, Hr, IH. apply Nat.min_id. Qed.
 
+(** availability is coded [count > 0] by the additive classes and [count != 0] by DenseLinearGenomicModel: the same on counts,
+    which are never negative *)
+Lemma avail_of_avail1 (g : gmodel) (x : Z) : g_cls g <> CL \/ 0 <= x -> avail_of g x = avail1 x.
+Proof.
+  intros H. unfold avail_of, avail1. destruct (g_cls g); try reflexivity.
+  destruct H as [H|H]; [contradiction|]. destruct (Z.eqb_spec x 0), (Z.ltb_spec 0 x); cbn; try reflexivity; lia.
+Qed.
+
+(** every class computes the same counts (DenseLinearGenomicModel's own copies of facount / dacount included) *)
+Lemma fa_of_all (g : gmodel) : fa_of g = fa1 /\ da_of g = da1.
+Proof. split; reflexivity. Qed.
+
 Section Tables.
   Variables (g : gmodel) (gt : gtin).
-  Hypothesis additive : g_cls g <> CL.
   Hypothesis W : well_shaped g.
   Hypothesis shape : Forall (fun r => length r = length (bv_effects g)) (dosage gt).
   Let u := bv_effects g.
   Let c := acount gt (length u).
   Let N := maxfav gt.
 
-  Lemma fa_of_additive : fa_of g = fa1 /\ da_of g = da1 /\ (forall x, avail_of g x = avail1 x).
-  Proof. unfold fa_of, da_of, avail_of, avail1. destruct (g_cls g); try contradiction; repeat split. Qed.
-
+  (** (the availability tables of DenseLinearGenomicModel test [!= 0]: for them the allele count is taken in its range,
+      which [colsums_bounds] below establishes for every well-formed dosage matrix) *)
   Lemma tables_entrywise (j k : nat) : (j < length u)%nat -> (k < g_t g)%nat ->
     let ujk := nth k (nth j u []) 0%Q in let cj := nth j c 0 in
+    (g_cls g = CL -> 0 <= cj <= N) ->
     nth k (nth j (facount g gt) []) 0 = fa1 ujk cj N /\
     nth k (nth j (dacount g gt) []) 0 = da1 ujk cj N /\
     nth k (nth j (faavail g gt) []) false = avail1 (fa1 ujk cj N) /\
@@ -164,12 +178,16 @@ Section Tables.
     nth k (nth j (fafreq g gt) []) 0%Q = (inject_Z (fa1 ujk cj N) / inject_Z N)%Q /\
     nth k (nth j (dafreq g gt) []) 0%Q = (inject_Z (da1 ujk cj N) / inject_Z N)%Q.
   Proof.
-    intros Hj Hk ujk cj. destruct fa_of_additive as (Ef & Ed & Ea).
+    intros Hj Hk ujk cj HL. destruct (fa_of_all g) as (Ef & Ed).
+    assert (Ea : forall v, avail_of g (fa1 v cj N) = avail1 (fa1 v cj N) /\ avail_of g (da1 v cj N) = avail1 (da1 v cj N)).
+    { intros v. destruct (mclass_eq_dec (g_cls g) CL) as [C|C].
+      - destruct (counts_range v cj N (HL C)) as [Rf Rd]. split; apply avail_of_avail1; right; lia.
+      - split; apply avail_of_avail1; now left. }
     assert (Lc : (j < length c)%nat) by (unfold c, acount; rewrite colsumsZ_len by exact shape; exact Hj).
     assert (Lk : (k < length (nth j u []))%nat) by (unfold u; rewrite nth_row_len by assumption; exact Hk).
     unfold facount, dacount, faavail, daavail, fafixed, dafixed, fapoly, dapoly, nafixed, napoly, fafreq, dafreq, stat.
     fold u c N. rewrite Ef, Ed.
-    repeat split; rewrite per_entry_nth by assumption; fold ujk cj; try reflexivity; now rewrite Ea.
+    repeat split; rewrite per_entry_nth by assumption; fold ujk cj; try reflexivity; apply Ea.
   Qed.
 End Tables.
 
@@ -193,11 +211,14 @@ Proof.
     apply map2_add_bounds; [rewrite colsumsZ_len by assumption; lia | assumption | apply IH; assumption].
 Qed.
 
-(** DenseLinearGenomicModel (class tag CL) does not reset neutral alleles: its counts agree with the definitions exactly on
-    non-neutral markers, and differ on neutral ones (finding C04-dlgm-neutral-alleles) *)
-Lemma L_counts_nonneutral (u : Q) (c N : Z) : ~ (u == 0)%Q -> fa1_L u c N = fa1 u c N /\ da1_L u c N = da1 u c N.
+(** regression witness: the FORMER facount / dacount of DenseLinearGenomicModel (class tag CL) did not reset neutral alleles; they
+    agreed with the definitions exactly on non-neutral markers, and counted a neutral allele both as favourable and as deleterious
+    (finding C04-dlgm-neutral-alleles, repaired) *)
+Definition old_fa1_L (u : Q) (c N : Z) : Z := if Qltb 0 u then c else (N - c)%Z.
+Definition old_da1_L (u : Q) (c N : Z) : Z := if Qltb u 0 then c else (N - c)%Z.
+Lemma old_L_counts_nonneutral (u : Q) (c N : Z) : ~ (u == 0)%Q -> old_fa1_L u c N = fa1 u c N /\ old_da1_L u c N = da1 u c N.
 Proof.
-  intros H. unfold fa1, da1, fa1_L, da1_L. destruct (Qeq_bool u 0) eqn:E; [apply Qeq_bool_iff in E; contradiction|]. split; reflexivity.
+  intros H. unfold fa1, da1, old_fa1_L, old_da1_L. destruct (Qeq_bool u 0) eqn:E; [apply Qeq_bool_iff in E; contradiction|]. split; reflexivity.
 Qed.
-Lemma L_counts_neutral_refuted : exists (u : Q) (c N : Z), 0 <= c <= N /\ (u == 0)%Q /\ fa1_L u c N <> fa1 u c N /\ da1_L u c N <> da1 u c N /\ fa1_L u c N + da1_L u c N <> 0.
+Lemma old_L_counts_neutral_refuted : exists (u : Q) (c N : Z), 0 <= c <= N /\ (u == 0)%Q /\ old_fa1_L u c N <> fa1 u c N /\ old_da1_L u c N <> da1 u c N /\ old_fa1_L u c N + old_da1_L u c N <> 0.
 Proof. exists 0%Q, 1, 2. repeat split; try lia; try reflexivity; cbn; discriminate. Qed.
